@@ -59,9 +59,10 @@ _lock = threading.Lock()
 
 # ----------------------------------------------------------------------------- generation
 def _gen(ctx, mode, pads=(), bigns=(), simulate=None, label=None, timeout=600, seed=None):
-    cfg = ("CONSTANTS\n  Mode = \"%s\"\n  Pads = {%s}\n  BigNs = {%s}\nINIT Init\nNEXT Next\n"
+    cfg = ("CONSTANTS\n  Mode = \"%s\"\n  Pads = {%s}\n  BigNs = {%s}\n  PermA = %d\n  PermB = %d\nINIT Init\nNEXT Next\n"
            "INVARIANT Emit\nCHECK_DEADLOCK FALSE\n"
-           % (mode, ", ".join(str(p) for p in sorted(pads)), ", ".join(str(n) for n in sorted(bigns))))
+           % (mode, ", ".join(str(p) for p in sorted(pads)), ", ".join(str(n) for n in sorted(bigns)),
+              2 * ((ctx.seed * 7 + 3) % 60) + 3, (ctx.seed * 13) % 128))   # seeded permutation of codes
     res = ctx.tlc("CFFLayoutGen", cfg="CFFLayoutGenX.cfg", files={"CFFLayoutGenX.cfg": cfg}, workers=1,
                   simulate=simulate, depth=(14 if simulate else None), timeout=timeout, seed=seed,
                   label=label or ("CFFLayoutGen " + mode), heap=("12g" if bigns else None))
